@@ -32,6 +32,7 @@ type PropSpec struct {
 	Bounds      []string      `json:"bounds"`
 	Outside     []string      `json:"outside"`
 	TimeoutMs   int           `json:"solver_timeout_ms,omitempty"`
+	Precise     string        `json:"precise_solver,omitempty"`
 }
 
 type KnownFinding struct {
@@ -96,6 +97,9 @@ func cmdCheck(args []string) int {
 	if err != nil {
 		fmt.Println("INCONCLUSIVE", err)
 		return 2
+	}
+	if spec.Precise != "" && os.Getenv("VERIF_SOLVER") == "" {
+		preciseBin = spec.Precise
 	}
 	outDir := filepath.Join(verifDir, "out", id)
 	os.RemoveAll(outDir)
